@@ -16,7 +16,7 @@ import pipeline
 import lower
 import cast
 
-UNITS = ['stream', 'base64', 'httpparse', 'net', 'values', 'httpwrite', 'transport']
+UNITS = ['stream', 'base64', 'httpparse', 'net', 'dynbuf', 'values', 'httpwrite', 'transport']
 
 
 def units_available():
